@@ -377,6 +377,9 @@ fn count_spreads(doc: &Doc) -> u64 {
 struct Timing {
     /// family -> (bytes, parse ns, work of rejected requests, their execute ns)
     sums: IndexMap<String, (u64, u128, u64, u128)>,
+    /// while set: one row per measured document (the fixed ladders)
+    keep_rows: bool,
+    rows: Vec<serde_json::Value>,
 }
 
 fn sample(env: &Env, f: Family, p: usize, k: Knobs, l: Limits, timing: &std::cell::RefCell<Timing>) -> Result<Sample, String> {
@@ -399,6 +402,10 @@ fn sample(env: &Env, f: Family, p: usize, k: Knobs, l: Limits, timing: &std::cel
         // execute time only of rejected requests: it then is the time of the checks alone
         let (w, ns) = if obs.errors.is_empty() { (0, 0) } else { (obs.work, obs.wall_ns) };
         *e = (e.0 + text.len() as u64, e.1 + parse_ns, e.2 + w, e.3 + ns);
+        if t.keep_rows && k.variant == 0 {
+            t.rows.push(serde_json::json!({"family": format!("{:?}", f), "p": p, "spreads_per_level": k.w, "bytes": text.len(), "parse_us": parse_ns as f64 / 1000.0, "work": obs.work,
+                "execute_us": obs.wall_ns as f64 / 1000.0, "rejected": !obs.errors.is_empty()}));
+        }
     }
     let inlined: u64 = doc.ops().map(|o| inlined_selections(&doc, &o.sel)).fold(0u64, |a, b| a.saturating_add(b));
     Ok(Sample { p, size: text.len() as u64, work: obs.work, inlined, spreads: count_spreads(&doc) })
@@ -445,6 +452,7 @@ pub fn run(ctx: &mut Ctx) {
     let generous = Limits { depth: 100, complexity: 50, nesting: 300, directives: 5000 };
 
     // the fixed ladders (5 sizes per family): evidence that does not depend on the seed
+    timing.borrow_mut().keep_rows = true;
     let t0 = Instant::now();
     let mut count = 0;
     for f in POLY_FAMILIES {
@@ -478,6 +486,7 @@ pub fn run(ctx: &mut Ctx) {
         }
     }
     ctx.enumerated("fan-out-chains", count, true, t0);
+    timing.borrow_mut().keep_rows = false;
 
     // random members of the polynomial families
     let n_fam = ctx.tier.pick(500, 15_000);
@@ -532,6 +541,7 @@ pub fn run(ctx: &mut Ctx) {
         .map(|(k, v)| (k.clone(), serde_json::json!({"bytes": v.0, "parse_ns_per_byte": v.1 as f64 / v.0.max(1) as f64, "work_of_rejected_requests": v.2, "rejected_request_ns_per_work_unit": v.3 as f64 / v.2.max(1) as f64})))
         .collect();
     ctx.note("secondary_timing_wall_clock_not_a_verdict", serde_json::Value::Object(per_family));
+    ctx.note("secondary_ladder_rows_wall_clock_not_a_verdict", serde_json::Value::Array(timing.borrow().rows.clone()));
     for f in POLY_FAMILIES {
         ctx.floor(&format!("family-{:?}", f), 15);
     }
